@@ -153,6 +153,23 @@ def run(tier, seed, rng):
         if 'ok' not in o or o.get('end') != len(c['raw']) // 2 or o.get('packed') != {'ok': c['raw']}:
             shared_failures.append(dict(kind='oracle', sig='roundtrip-shared-table', what=f"references sharing one table of selectable fields: unpack succeeded but pack() gives {o.get('packed')} instead of the parsed bytes {c['raw']}" if 'ok' in o else f"the input {c['raw']} does not parse: {o}",
                                         classes=ssrc, cls=c['cls'], raw=c['raw'], offset=0, observed=o))
+    # ---- a regex delimiter that matches ONE string only (so nothing is lost although it is not kept in the value), the field not at
+    # offset 0, more bytes after the message: what was consumed comes back, byte for byte
+    rsrc = ("class RRec(Packet):\n    tag = Int(1)\n    text = Data(until_marker=re.compile(b'\\r\\n'))\n    crc = Int(1)\n"
+            "class RLine(Packet):\n    body = Data(until_marker=re.compile(b';'))\n"
+            "class RBlock(Packet):\n    n = Int(1)\n    lines = Ref(RLine).repeated(count=n)\n    t = Int(1)\n"
+            "class RRecL(Packet):\n    __bisturi__ = {'generate_for_pack': False, 'generate_for_unpack': False}\n    tag = Int(1)\n    text = Data(until_marker=re.compile(b'\\r\\n'))\n    crc = Int(1)\n")
+    rcases, rmeta = [], []
+    for cls, msg in (('RRec', b'\x07hello\r\nZ'), ('RRecL', b'\x07hello\r\nZ'), ('RRec', b'\x01\r\nQ'), ('RBlock', b'\x02ab;cd;F'), ('RBlock', b'\x03;x;;G')):
+        for off in (0, 1, 3):
+            for suf in (b'', b'!', b'!!!!!!!!'):
+                raw = b'PQR'[:off] + msg + suf
+                rcases.append(dict(cls=cls, op='roundtrip', raw=raw.hex(), offset=off)); rmeta.append((cls, msg, off, raw))
+    rres = run_impl(os.path.join(VERIF, 'harness', 'impl_pkt.py'), dict(header=decl.HEADER_PY, blocks=[dict(name='rx', src=rsrc)], modname='c01r', cases=rcases))
+    for (cls, msg, off, raw), o in zip(rmeta, rres['outcomes']):
+        if 'ok' not in o or o.get('end') != off + len(msg) or o.get('packed') != {'ok': msg.hex()}:
+            shared_failures.append(dict(kind='oracle', sig='roundtrip-single-string-regex', what=f"{cls} parsed from {raw.hex()} at {off}: the message is {msg.hex()} (the regex delimiter matches one string only); observed end {o.get('end')}, pack() {o.get('packed')}",
+                                        classes=rsrc, cls=cls, raw=raw.hex(), offset=off, observed=o))
     records, disagreements = pktcases.run_groups(groups, 'c01')
     failures = list(shared_failures)
     dist = dict(parsed=0, exact_checked=0, weak_checked=0, with_holes=0, offset_nonzero=0, pack_error_on_overlap=0)
